@@ -184,6 +184,7 @@ func builtinJSONStringify(call FunctionCall) Value {
 		if isArray(replacer) {
 			length := objectLength(replacer)
 			seen := map[string]bool{}
+			call.runtime.checkDenseLength(int64(length))
 			propertyList := make([]string, length)
 			length = 0
 			for index := range propertyList {
@@ -394,6 +395,7 @@ func builtinJSONStringifyWalk(ctx builtinJSONStringifyContext, key string, holde
 			default:
 				panic(ctx.call.runtime.panicTypeError(fmt.Sprintf("JSON.stringify: invalid length: %v (%[1]T)", value)))
 			}
+			ctx.call.runtime.checkDenseLength(int64(length))
 			array := make([]interface{}, length)
 			for index := range array {
 				name := arrayIndexToString(int64(index))
